@@ -14,6 +14,7 @@ func init() { register("C01", checkC01) }
 
 type evalVector struct {
 	Di, Ei int
+	Tog    bool
 	St     string
 	Res    []*AV
 	Same   bool
@@ -50,6 +51,7 @@ func runGenEval(rc *Run, module, name, cfg string, timeout time.Duration) (*genE
 				g.Docs[int(num(m["i"]))] = fromSpec(m["d"])
 			case "v":
 				v := evalVector{Di: int(num(m["di"])), Ei: int(num(m["ei"])), St: m["st"].(string), Same: m["same"].(bool)}
+				v.Tog, _ = m["tog"].(bool)
 				if rs, ok := m["res"].([]interface{}); ok {
 					for _, r := range rs {
 						v.Res = append(v.Res, fromSpec(r))
@@ -123,7 +125,7 @@ func checkC01(rc *Run) error {
 	if shard < 0 {
 		shard = -shard
 	}
-	cfg := fmt.Sprintf("CONSTANTS\n Level = %d\n NShards = %d\n Shard = %d\nINIT Init\nNEXT Next\nCHECK_DEADLOCK FALSE\n", level, nsh, shard)
+	cfg := fmt.Sprintf("CONSTANTS\n Level = %d\n NShards = %d\n Shard = %d\n TogEvery = %d\nINIT Init\nNEXT Next\nCHECK_DEADLOCK FALSE\n", level, nsh, shard, rc.Pick(3, 1))
 	g, err := runGenEval(rc, "Gen_Eval", "gen", cfg, time.Duration(rc.Pick(10, 60))*time.Minute)
 	if err != nil {
 		return err
@@ -167,7 +169,7 @@ func replayEvalVectors(rc *Run, g *genEvalResult, prop string) replayStats {
 				}
 				if v.St == "unspec" {
 					// executed for the crash/hang monitor only
-					o := evalWithTimeout(exprText(e), d.JSON(), false)
+					o := evalWithTimeout(exprText(e), d.JSON(), v.Tog)
 					mu.Lock()
 					st.unspec++
 					mu.Unlock()
@@ -179,7 +181,7 @@ func replayEvalVectors(rc *Run, g *genEvalResult, prop string) replayStats {
 					}
 					continue
 				}
-				kind, text, doc, want, got, _ := compareEval(v, e, d, false)
+				kind, text, doc, want, got, _ := compareEval(v, e, d, v.Tog)
 				mu.Lock()
 				st.compared++
 				opsIn(e, opset)
@@ -196,14 +198,18 @@ func replayEvalVectors(rc *Run, g *genEvalResult, prop string) replayStats {
 					continue
 				}
 				// re-run once from scratch before reporting (soundness rule 4)
-				kind2, _, _, _, _, _ := compareEval(v, e, d, false)
+				kind2, _, _, _, _, _ := compareEval(v, e, d, v.Tog)
 				if kind2 != kind {
 					rc.Add("flaky_mismatches", 1)
 					continue
 				}
-				fp := fmt.Sprintf("eval-%s:%s", kind, skeleton(e, 2))
+				mode := ""
+				if v.Tog {
+					mode = "together-"
+				}
+				fp := fmt.Sprintf("eval-%s%s:%s", mode, kind, skeleton(e, 2))
 				rc.Report(fp, fmt.Sprintf("expr=%s doc=%s spec=%s real=%s", text, doc, want, got),
-					M{"machine": "Eval", "concrete": M{"expr": text, "input_json": doc}, "expected": want, "observed": got, "kind": kind})
+					M{"machine": "Eval", "concrete": M{"expr": text, "input_json": doc, "together": v.Tog}, "expected": want, "observed": got, "kind": kind})
 			}
 		}()
 	}
